@@ -302,7 +302,12 @@ def run(ctx):
                 rec = {'alg': alg + '-typed-brackets', 'kind': form + (',cubic' if cubic else ',linear'), 'err': '', 'inside': True, 'accurate': True,
                        'exactzero': False, 'n': n, 'lo': {'x': 0, 's': -1, 'm': 1}, 'hi': {'x': 1, 's': 1, 'm': 1}, 'evals': [], 'ret': -1}
                 try:
-                    x = np.asarray(getattr(optimize, alg)(fint, lo_.copy(), hi_.copy()), dtype=float)
+                    if form == 'int-lower-float-upper' and n > 1:
+                        # the caller keeps its bracket arrays and solves a second problem on them (another level of the same function)
+                        getattr(optimize, alg)(lambda x: fint(x) + a_ * 1.5 * (1 if not cubic else 1.5 ** 2), lo_, hi_)
+                        x = np.asarray(getattr(optimize, alg)(fint, lo_, hi_), dtype=float)
+                    else:
+                        x = np.asarray(getattr(optimize, alg)(fint, lo_.copy(), hi_.copy()), dtype=float)
                     rec['inside'] = bool(np.all((x >= 0.0) & (x <= 100.0)))
                     tolx = 1e-8 if alg == 'bisect' else 1e-9 * 100.0
                     # a cubic is flat at its root: judged by the residual against the value one tolerance away from the root
